@@ -5,6 +5,8 @@
 //! violations against `/verif/known_findings.json` and prints the VIOLATION / KNOWN-FINDING
 //! lines. Engines never decide on exit codes other than 0 (ran) / 3 (harness error).
 
+pub mod alloc;
+
 use serde_json::{json, Map, Value};
 use std::collections::{BTreeMap, HashSet};
 use std::time::Instant;
@@ -75,6 +77,11 @@ impl Rng {
             v.extend_from_slice(&x[..take]);
         }
         v
+    }
+    /// `n` random bytes with `n` uniform in 0..max
+    pub fn rbytes(&mut self, max: u64) -> Vec<u8> {
+        let n = self.below(max) as usize;
+        self.bytes(n)
     }
     pub fn fork(&mut self) -> Rng {
         Rng::new(self.next_u64())
@@ -342,5 +349,41 @@ impl Args {
     pub fn flag(&self, key: &str) -> bool {
         let k = format!("--{}", key);
         self.v.iter().any(|a| *a == k)
+    }
+}
+
+
+/// Run `total` independent cases on `threads` worker threads; each case gets its own PRNG derived
+/// from (seed, index) and a thread-local report that is merged into `rep` at the end.
+pub fn par_cases<F>(rep: &mut StageReport, threads: usize, total: u64, seed: u64, f: F)
+where
+    F: Fn(u64, &mut Rng, &mut StageReport) + Send + Sync + 'static,
+{
+    use std::sync::atomic::{AtomicU64, Ordering};
+    use std::sync::Arc;
+    let next = Arc::new(AtomicU64::new(0));
+    let f = Arc::new(f);
+    let mut hs = vec![];
+    for _ in 0..threads.max(1) {
+        let next = next.clone();
+        let f = f.clone();
+        let (p, st, ti, sd) = (rep.property.clone(), rep.stage.clone(), rep.tier.clone(), rep.seed);
+        hs.push(std::thread::spawn(move || {
+            let mut local = StageReport::new(&p, &st, &ti, sd);
+            loop {
+                let i = next.fetch_add(1, Ordering::SeqCst);
+                if i >= total {
+                    break;
+                }
+                let mut rng = Rng::new(mix(seed, i));
+                f(i, &mut rng, &mut local);
+            }
+            local
+        }));
+    }
+    for h in hs {
+        if let Ok(l) = h.join() {
+            rep.merge(l);
+        }
     }
 }
